@@ -101,7 +101,7 @@ def main():
             r['failed'] = [{'obligation': o, 'text': 'no verdict from the back end (unknown/timeout)'} for o in r['undecided_obligations']]
             r['status'] = 'refuted'
             r['only_unknown'] = True
-        if r['status'] == 'undecided' and 'EXTRACTION-BREAK' in (r.get('reason') or '') and (units[n].get('replay') or '').split()[:1] in (['c18_native'], ['hdr_native']):
+        if r['status'] == 'undecided' and 'EXTRACTION-BREAK' in (r.get('reason') or '') and (units[n].get('replay') or '').split()[:1] in (['c18_native'], ['hdr_native'], ['c13_native'], ['nvd_native']):
             # the function can no longer be brought within the verifier's reach: a BOUNDED stand-in takes over -- the native program
             # drives the REAL code (from the tree under check, ASan/UBSan) on every input / history of its small scope and compares with the
             # oracle written from the property statement.  A failing input found this way is a violation with a real input; a clean run
